@@ -161,6 +161,32 @@ def main():
                 g = gen2(np.zeros((3,), "float32"))
                 KEEP.append(g)
                 return add_next(g, np.zeros((3,), "float32")) is not None
+            if op == "concurrent_flatten":
+                # ANOTHER thread is in the middle of flattening a tree against PyTree[alias] (the same annotation object) and
+                # stays there until the probes are done
+                import threading
+                inside, release = threading.Event(), threading.Event()
+                RELEASE.append(release)
+
+                class ParkNode:
+                    pass
+                def _pflat(n):
+                    inside.set(); release.wait(600)
+                    return ((), None)
+                jtu.register_pytree_node(ParkNode, _pflat, lambda aux, cs: ParkNode())
+                def other():
+                    try:
+                        with jaxtyped("context"):
+                            isinstance((np.zeros((3,), "float32"), ParkNode()), PyTree[alias])
+                    except BaseException:  # noqa
+                        pass
+                th = threading.Thread(target=other, daemon=True); th.start()
+                THREADS.append(th)
+                import time as _tm
+                t_end = _tm.time() + 60
+                while th.is_alive() and not inside.is_set() and _tm.time() < t_end:     # (the thread may finish without flattening the node)
+                    _tm.sleep(0.005)
+                return True
             if op == "decorate_other":
                 @jaxtyped(typechecker=tc)
                 def h(x: alias) -> alias:
@@ -175,11 +201,12 @@ def main():
             raise KeyError(op)
 
         KEEP = []
+        RELEASE, THREADS = [], []
 
         def probes(alias):
             out = {}
             out["path"] = getattr(_storage._treepath_storage, "value", None)
-            out["flat"] = bool(_storage.get_treeflatten_memo())
+            out["flat"] = bool(getattr(_storage, "get_treeflatten_memo", lambda: False)())
             out["depth"] = len(getattr(_storage._shape_storage, "memo_stack", []))
             b = io.StringIO()
             with contextlib.redirect_stdout(b):
@@ -214,6 +241,7 @@ def main():
         for hist in req["histories"]:
             alias = Float[A, "n"]            # a fresh annotation object per history
             outcomes = []
+
             for o in hist:
                 def go():
                     if o.get("ctx"):
@@ -231,6 +259,11 @@ def main():
                     outcomes.append("BaseException:" + type(e).__name__)
             state["fault"] = None
             p = probes(alias)
+            for ev in RELEASE:
+                ev.set()
+            for th in THREADS:
+                th.join(60)
+            del RELEASE[:], THREADS[:]
             reset()
             res.append({"ops": outcomes, "probes": p})
     print(json.dumps(res))
